@@ -83,6 +83,9 @@ extern uint64_t g_hs_sz, g_hs_mult;	/* the code's *size and multiplier at the en
 extern unsigned g_asp_calls;
 extern int g_asp_kind, g_asp_a1, g_asp_a2, g_asp_pfx, g_asp_fail;
 extern char * g_asp_ret;
+int num_asprintf1(char **, const char *, int);
+int num_asprintf2(char **, const char *, int, int);
+int num_asprintf3(char **, const char *, int, int, int);
 #define HS_ASP_GHOSTS g_asp_calls, g_asp_kind, g_asp_a1, g_asp_a2, g_asp_pfx, g_asp_fail, g_asp_ret
 
 #ifndef HS_MAXLEN
